@@ -494,7 +494,7 @@ def coq_eval_values(ctx, stream, imports, defs, exprs, kind="oqc", shard=150, ti
         for k, fn, rc, txt in res:
             if rc != 0:
                 raise CoqError(f"model evaluation failed for stream {stream} ({fn}):\n{txt[-3000:]}")
-            trip = re.findall(r"\(\s*(-?\d+)%Z\s*,\s*(-?\d+)%Z\s*,\s*(\d+)%positive\s*\)", txt.replace("\n", " "))
+            trip = re.findall(r"\(\s*\(?(-?\d+)\)?%Z\s*,\s*\(?(-?\d+)\)?%Z\s*,\s*(\d+)%positive\s*\)", txt.replace("\n", " "))
             n = len(exprs[k:k + shard])
             if len(trip) != n:
                 raise CoqError(f"cannot parse coqc output for {fn}: expected {n} values, found {len(trip)}\n{txt[-1500:]}")
